@@ -231,6 +231,12 @@ def harness(it, px, params):
     for layout in ('a @ bcd', '@ 169', 'a@ b', '1 @ 2 @ 3'):
         for kind in ('infix', 'prefix'):
             cfgs.append(('R', layout, (kind, False, 'mb')))
+    # an operator of three symbol characters whose two-character beginning (written '#') occurs in the input without the
+    # third character: the beginning alone is or is not an operator of its own (both are explored)
+    for layout in ('a#1', 'a # b', 'a#b @ c', '1 #', 'a@b'):
+        cfgs.append(('R', layout, ('infix', False, 'sym3')))
+    cfgs.append(('R', 'a#1', ('postfix', True, 'sym3')))
+    cfgs.append(('R', 'a#b', ('prefix', False, 'sym3')))
     k = pick_config(px, 'cfg', len(cfgs))
     fam, p1, p2 = cfgs[k]
     px.notes.append('%s %s %s' % (fam, p1, p2))
@@ -254,11 +260,14 @@ def harness(it, px, params):
         kind, pre, alpha = p2
         c1 = px.bv('op1', 8)
         c2 = px.bv('op2', 8)
-        if alpha == 'sym':
+        if alpha in ('sym', 'sym3'):
             px.add(z3.Or([c1 == z3.BitVecVal(x, 8) for x in OPSTART]))
             # second character: ASCII punctuation that is not a delimiter, quote, comma or semicolon
             punct = [x for x in range(0x21, 0x7F) if not chr(x).isalnum() and x not in DELIMS and x not in b'"\',;_.']
             px.add(z3.Or([c2 == z3.BitVecVal(x, 8) for x in punct]))
+            if alpha == 'sym3':
+                c3 = px.bv('op3', 8)
+                px.add(z3.Or([c3 == z3.BitVecVal(x, 8) for x in punct]))
         elif alpha == 'mb':
             c3 = px.bv('op3', 8)
             for c in utf8_constraints([c1, c2, c3], (3,)):
@@ -268,17 +277,19 @@ def harness(it, px, params):
                 px.add(z3.Or(z3.And(z3.UGE(c, z3.BitVecVal(0x61, 8)), z3.ULE(c, z3.BitVecVal(0x7A, 8))),
                              z3.And(z3.UGE(c, z3.BitVecVal(0x41, 8)), z3.ULE(c, z3.BitVecVal(0x5A, 8)))))
         px.get_model()
-        opb = (c1, c2, c3) if alpha == 'mb' else (c1, c2)
+        opb = (c1, c2, c3) if alpha in ('mb', 'sym3') else (c1, c2)
         opname = Str(opb)
-        # the two-character operator must not already be a built-in one (we want a *new* registration)
+        # the operator must not already be a built-in one (we want a *new* registration)
         for wd in registry_words([]):
-            if len(wd) == 2:
-                px.add(z3.Not(z3.And(c1 == wd[0], c2 == wd[1])))
+            if len(wd) == len(opb):
+                px.add(z3.Not(z3.And([c == w for c, w in zip(opb, wd)])))
         px.get_model()
         bs = []
         for ch in p1:
             if ch == '@':
                 bs += list(opb)
+            elif ch == '#':
+                bs += list(opb[:2])
             else:
                 bs.append(ord(ch))
         if pre:
@@ -482,13 +493,13 @@ def run(ctx):
             'states': max(1, summ['paths']), 'transitions': max(1, summ['decisions']),
             'traces_validated_against_impl': validated, 'samples': samples[:30], 'exhaustive': not summ.get('truncated') and not inconclusive,
             'bound': {'utf8_input_bytes_max': N, 'string_family': 'quote + <=2 characters (1-3 bytes each, symbolic) + quote + <=2 ASCII bytes',
-                      'registered_operator_family': 'two symbolic characters (operator-start char + ASCII punctuation; or two letters = a word operator) registered as infix / prefix / postfix operator, before first use and after the text was tokenized once, in layouts a@b, a @ b, a@@b, 1@2, a@=b, @a, 1 @, @ a, 1@, a @@ b'},
+                      'registered_operator_family': 'two symbolic characters (operator-start char + ASCII punctuation; or two letters = a word operator) registered as infix / prefix / postfix operator, before first use and after the text was tokenized once, in layouts a@b, a @ b, a@@b, 1@2, a@=b, @a, 1 @, @ a, 1@, a @@ b; three symbolic symbol characters (# = the first two of them) in layouts a#1, a # b, a#b @ c, 1 #, a@b, a#b'},
             'path_status': by_status,
             'solver': {'engine': 'z3 ' + z3.get_version_string(), 'queries_sat': summ['sat'], 'queries_unsat': summ['unsat'],
                        'queries_unknown': summ['unknown'], 'solver_s': round(summ['solver_s'], 2)},
             'mir_steps': summ['steps'], 'workers': summ['workers'],
             'functions_encoded': summ['bodies_used'], 'library_models_used': summ['models_used'], 'covers_hit': sorted(covers),
-            'outside': ['inputs longer than the bounds', 'registered operators longer than two characters'],
+            'outside': ['inputs longer than the bounds', 'registered operators longer than three characters'],
         },
         'assumptions': ['reference tokenizer = the documented lexical rules as written in this file (probe for word operators up to whitespace or a delimiter ()[]{}; identifier characters [0-9A-Za-z._] after an arbitrary first character; number run 0-9 . e E and +/- only after e/E)',
                         'library models validated by the conformance corpus and sampled native replays'],
